@@ -136,6 +136,18 @@ CLAIMED = {
         "bytes.fromhex / kv.bytes_from_hex decodes to the id (upper case and the odd-length fix-up included).",
         "DESIGN.md §6 C08",
     ),
+    "C17": (
+        "Lean 4 theorems (exact row set after a SQL GC pass; soundness of the LMDB collector's range walks; coherence after the queued deletions) + differential correspondence under an injected clock",
+        "Proof: NostrRelay/Props/C17.lean proves for every SQL state and time that a row survives a pass iff it is not "
+        "ephemeral and has no expiration tag row smaller than str(now) in the string order the code uses (hence every "
+        "ephemeral row goes, nothing without an expiration goes, the table invariant survives); for LMDB that every "
+        "queued id comes from a key inside one of the two walked ranges and that applying the queued deletions keeps the "
+        "keyspace coherent (C10). That the comparison is a string comparison is the open finding on both backends "
+        "(witness theorem). Tie/search: real collectors on both backends at T-1/T/T+1 with boundary and malformed "
+        "expirations.",
+        "Trusted: as C10/C01; clock replaced by a constant; on LMDB ephemeral kinds are never stored by add_event.",
+        "DESIGN.md §6 C17",
+    ),
 }
 
 NOT_YET = "not reached yet in this round (model/tie not built); see DESIGN.md §10 staging — no weaker technique is substituted"
